@@ -17,6 +17,9 @@
      next <dir>                   vbi_search_next + the whole search context.  After a search with <regexp> != 0 the
                                   answer is `ok unsupported` (ure.c is not modelled: same answer as the model driver)
                                   unless the harness was started with --regex (real code + oracle runs of the check)
+                                  or the search was created with <mode> = `ure` (round 5: the model driver then compiles
+                                  the pattern with the Lean model of ure.c and runs vbi_search_next's model on it, so the
+                                  flags search.c hands to ure_exec are part of the correspondence)
      endsearch
    rowspec: `-` (rows 1..23 all blank = U+0020 normal size) or `<row>:<41 cells>;...`, cell = 4 hex unicode + 1 hex size */
 #include "hutil.h"
@@ -203,7 +206,7 @@ int main(int argc, char **argv)
 				pat[len / 2] = 0;
 				if (srch) vbi_search_delete(srch);
 				srch = vbi_search_new(dec, (vbi_pgno) a, (vbi_subno) b, pat, c != 0, d != 0, NULL);
-				srch_regex = (d != 0);
+				srch_regex = (d != 0) && 0 != strcmp(h_tok[6], "ure");   /* mode `ure`: the model driver runs its ure.c model */
 				free(pat); free(p);
 			}
 			if (!srch) printf("ok null\n");
